@@ -595,6 +595,8 @@ impl<'a> Gen<'a> {
         let exs: Vec<String> = match kind { GK::I(ex) => ex.iter().map(|(n, _)| n.clone()).collect(), _ => vec![] };
         let seg = if is_ident(en) { Some(en.to_string()) } else { last_seg(en).filter(|s| is_ident(s)).map(|s| s.to_string()) };
         let base = if matches!(base, Expr::New { .. }) && self.r.chance(1, 3) { Expr::Nested(Box::new(base)) } else { base };
+        // a NAMED access is exact: a string that is only the last segment of a path (unique or ambiguous) names no export
+        if let Some(s) = &seg { if *s != en && !exs.iter().any(|n| n == s) && self.r.chance(1, 12) { return Expr::Named(Box::new(base), s.clone()); } }
         match seg {
             Some(s) => {
                 let unamb = s == en || (!exs.iter().any(|n| *n == s) && exs.iter().filter(|n| last_seg(n) == Some(s.as_str())).count() == 1);
@@ -696,7 +698,7 @@ fn gen_program(lib: &[Pkg], r: &mut Rng) -> (Vec<Stmt>, Vec<Local>) {
 // ------------------------------------------------------------------ single faults
 
 const FAULTS: &[&str] = &["undefined-name", "duplicate-name", "missing-argument", "duplicate-argument", "access-non-instance",
-    "spread-non-instance", "fill-not-last", "ineffective-spread", "conflicting-export"];
+    "spread-non-instance", "fill-not-last", "ineffective-spread", "conflicting-export", "inexact-named-access"];
 
 fn for_each_expr_mut(p: &mut [Stmt], f: &mut dyn FnMut(&mut Expr)) {
     fn walk(e: &mut Expr, f: &mut dyn FnMut(&mut Expr)) {
@@ -856,6 +858,27 @@ fn inject(p: &[Stmt], locals: &[Local], fault: &str, r: &mut Rng) -> Option<Vec<
                 let s = q[i].clone();
                 q.insert(i + 1 + r.below((q.len() - i) as u64) as usize, s);
             }
+        }
+        "inexact-named-access" => {
+            // `l["seg"]` where `seg` is the version-stripped last segment of an export path of `l` and not itself an export
+            let mut cands: Vec<(&Local, String, GK)> = Vec::new();
+            for l in &insts { if let GK::I(ex) = &l.kind { for (n, k) in ex {
+                if let Some(sg) = last_seg(n) { if sg != n && !ex.iter().any(|(m, _)| m == sg) { cands.push((l, sg.to_string(), k.clone())); } } } } }
+            if cands.is_empty() { return None; }
+            let (l, sg, k) = r.pick(&cands).clone();
+            let start = def_pos(&q, &l.id)? + 1;
+            let named = Expr::Named(Box::new(Expr::Id(l.id.clone())), sg.clone());
+            // alone, chained before / after another access, or as an argument
+            let e = match (r.below(4), &k) {
+                (0, GK::I(ex)) if !ex.is_empty() => Expr::Access(Box::new(named), ex[0].0.clone()),
+                (1, _) => Expr::Nested(Box::new(named)),
+                (2, _) => { let comps: Vec<&Pkg> = Vec::new(); let _ = comps;
+                    Expr::New { pkg: "test:sink".into(), args: vec![Arg::Named { name: "x".into(), is_str: false, e: named }, Arg::Fill] } }
+                _ => named,
+            };
+            let st = if r.chance(1, 2) { Stmt::Let { id: "zq".into(), e } } else { Stmt::Export { e, opt: ExpOpt::As(true, "zq".into()) } };
+            let pos = start + r.below((q.len() - start) as u64 + 1) as usize;
+            q.insert(pos.min(q.len()), st);
         }
         _ => return None,
     }
